@@ -31,6 +31,7 @@ META = {
     "generator). Generator finalisation timing of LambdaExpression.map on non-refcounting interpreters is an assumption.",
 }
 META["technique"] += '; who-may-read audits (locals, counters, RenderContext.parent); identity-preservation of namespaces handed to a context; exception-escape analysis for loop interrupts at the macro-call boundary'
+META["technique"] += "; call-site expressions told from macro defaults before anything is evaluated in the caller's context"
 META["level_text"] += " Also decided (R6-R9): a namespace handed to a new context is stored by identity (late-bound with/for values reach it); `render … for` builds a fresh context per item; no code reaches another context's locals/counters or reads RenderContext.parent; no LiquidInterrupt escapes a macro call."
 
 CTX = "liquid2.context.RenderContext"
@@ -434,3 +435,28 @@ def run(prog: Program, res: Result) -> None:  # noqa: PLR0912, PLR0915
     from checks.shared import check_arguments_before_bindings
 
     check_arguments_before_bindings(prog, res, "C07.R10")
+    # ------------------------------------------------------------------ R11 a macro's defaults belong to the macro
+    res.rule("C07.R11", "a macro sees global data and the arguments passed to it - its own parameter defaults included: in CallNode.render_to_output[_async] an expression taken from the bound arguments is evaluated in the caller's `context` only on a path that has told call-site expressions from the macro's defaults (a test mentioning `macro.args`); defaults are evaluated in the copied macro context. Evaluated in the caller's scope, `{% macro m, a: secret %}` reads the `secret` its caller assigned")
+    call_cls = prog.mod("liquid2/builtin/tags/macro_tag.py").classes.get("CallNode")
+    if call_cls is None:
+        raise AnalysisError("CallNode vanished")
+    n11 = 0
+    for nm11 in ("render_to_output", "render_to_output_async"):
+        m11 = call_cls.methods.get(nm11)
+        if m11 is None:
+            raise AnalysisError(f"CallNode.{nm11} vanished")
+        for lp in ast.walk(m11.node):
+            if not (isinstance(lp, ast.For) and "args.args" in norm(lp.iter, 80)):
+                continue
+            evs = [c for c in ast.walk(lp) if isinstance(c, ast.Call) and isinstance(c.func, ast.Attribute) and c.func.attr in ("evaluate", "evaluate_async") and c.args and norm(c.args[0]) == "context"]
+            for c in evs:
+                n11 += 1
+                guards = [a for a in m11.module.ancestors(c) if isinstance(a, ast.If) and any(a2 is lp for a2 in m11.module.ancestors(a))]
+                told = any("macro.args" in norm(g.test, 200) for g in guards) or any(isinstance(a, ast.If) and "macro.args" in norm(a.test, 200) and any(c is x for o in a.orelse for x in ast.walk(o)) for a in ast.walk(lp))
+                site = f"{m11.file}:{c.lineno} CallNode.{nm11}"
+                what = f"CallNode.{nm11}: only call-site expressions are evaluated in the caller's context"
+                if told:
+                    res.ok("C07.R11", site, what, "behind a test against macro.args (defaults go to the macro's context)")
+                else:
+                    res.fail("C07.R11", file=m11.file, line=c.lineno, qualname=f"CallNode.{nm11}", construct=f"CallNode.{nm11}: every bound argument, defaults included, evaluated in the caller's context", message=f"CallNode.{nm11} evaluates `{norm(c, 40)}` for every entry of args.args without telling the macro's parameter defaults from the call's own arguments: a default is part of the macro, and evaluated in the caller's scope it reads what the caller assigned, captured or loop-bound (`{{% macro m, a: secret %}}` prints the caller's `secret`)", what=what)
+    res.floor("C07.R11", "caller-context evaluations of bound macro arguments", n11, 2)
